@@ -39,7 +39,7 @@ Definition spec_tick (mx : Z) (m : list Z) (cnt : Z -> Z) : option (list Z) * (Z
    Some o at a tick (o = the NACK for s at that tick, None = no packet for s) *)
 Definition spec_step (c : cfg) (s : Z) (st : sstream) (o : op) : sstream * option (option (list Z)) :=
   match o with
-  | Bind k true => if k =? s then (mk_ss (Some []) (ss_cnt st), None) else (st, None)
+  | Bind k true => if k =? s then (mk_ss (Some []) (fun _ => 0), None) else (st, None)
   | Bind _ false => (st, None)
   | Unbind k => if k =? s then (ss_init, None) else (st, None)
   | Arrive k seq true =>
@@ -107,6 +107,9 @@ Definition nonempty (m : list Z) : option (list Z) := match m with [] => None | 
 Definition is_tick (o : op) : bool := match o with Tick => true | _ => false end.
 Definition n_ticks (ops : list op) : nat := length (filter is_tick ops).
 Definition is_unbind_of (s : Z) (o : op) : bool := match o with Unbind k => k =? s | _ => false end.
+(* o ends the current binding of s: UnbindRemoteStream, or BindRemoteStream (with nack) again *)
+Definition ends_binding_of (s : Z) (o : op) : bool :=
+  match o with Unbind k => k =? s | Bind k true => k =? s | _ => false end.
 
 (* well-formed inputs: delivered sequence numbers are uint16; the configuration is what
    NewGeneratorInterceptor accepts *)
